@@ -471,7 +471,7 @@ func observe(c gengo.Context, bh Behav, gen string, named *types.Named) {
 	vals["methods"] = strings.Join(ms, ",")
 	var ips []string
 	for ip, p := range pkg.Imports() {
-		if strings.Contains(ip, ".") { // module-local / third-party imports of the hand-written files
+		if pkg.Module() != nil && strings.HasPrefix(ip, pkg.Module().Path+"/") { // module-local imports (generated files only add std / third-party ones)
 			ips = append(ips, fmt.Sprintf("%s:%v", ip, p != nil))
 		}
 	}
